@@ -15,6 +15,8 @@
 package redis
 
 import (
+	"errors"
+	"math"
 	"strconv"
 )
 
@@ -34,6 +36,9 @@ func (server *Server) registerSugarExecutors() {
 				return nil, err
 			}
 			currVal = retVal
+		}
+		if (0 < val && (math.MaxInt-val) < currVal) || (val < 0 && currVal < (math.MinInt-val)) {
+			return nil, errors.New("increment or decrement would overflow")
 		}
 		newVal := currVal + val
 		opt := newDefaultSetOption()
@@ -83,6 +88,9 @@ func (server *Server) registerSugarExecutors() {
 		inc, err := nextIntegerArgument(cmd, "decrement", args)
 		if err != nil {
 			return nil, err
+		}
+		if inc == math.MinInt {
+			return nil, newInvalidArgumentError(cmd, "decrement", errors.New("out of range"))
 		}
 		return incdecExecutor(conn, cmd, key, -inc)
 	})
